@@ -419,7 +419,7 @@ def name_forms(F):
         calls = [nd for nd in fn.nodes if nd["k"] == "CXXMemberCallExpr" and nd.get("fname") == name]
         inst = "%s::%s(name)#delegates" % (ARC, name)
         req = "the name-taking form calls the index form with GetIndex(name)"
-        good = len(calls) == 1 and fn.term(calls[0]["args"][0]) == ("call", ARC + "::GetIndex", ("this",), (P(fn, 0),)) and calls[0].get("virt")
+        good = len(calls) == 1 and fn.xterm(calls[0]["args"][0]) == ("call", ARC + "::GetIndex", ("this",), (P(fn, 0),)) and calls[0].get("virt")
         if good:
             out.append(ok("R-WHOCALLS", inst, fn.loc(calls[0]["id"]), fn.qn, req, fmt_term(fn.term(calls[0]["id"]))))
         else:
